@@ -46,7 +46,7 @@ Proof. intros Hok. unfold pstart.
 Lemma good_committed cp prods s : good_slot cp s -> committed cp prods s.
 Proof. intros (_ & _ & Gl & Gs & _ & Gk & Go & Gq). split; [assumption |]. unfold is_pad in *.
   destruct (s_type s =? PAD) eqn:P.
-  - left. destruct Gk as (A & B & C). repeat split; auto; try lia.
+  - left. destruct Gk as (A & B & C). split; [lia |]. split; [assumption | lia].
   - right. left. destruct Gk as (A & B). split; [assumption |]. split; [assumption |]. split; [assumption |].
     split; [unfold rl_of; exact B |]. unfold rq_of, rl_of. rewrite <- B. exact Gs. Qed.
 
